@@ -38,7 +38,7 @@ def run_one(hid):
         res["tests_patched"] = out.strip()
         outdir = os.path.join(tmp, "_verif_out")
         os.makedirs(outdir)
-        env2 = dict(os.environ, PYVC_REPO=tmp, PYVC_OUT=outdir, PYVC_JOBS="6")
+        env2 = dict(os.environ, PYVC_REPO=tmp, PYVC_OUT=outdir, PYVC_JOBS=os.environ.get("HARMLESS_JOBS", "4"))
         det = {}
         for p in PROPS:
             rc, out = sh(f"./check {p}", cwd=VERIF, env=env2, timeout=1800)
@@ -66,7 +66,7 @@ def run_one(hid):
 
 def main():
     ids = sys.argv[1:] or sorted(os.listdir(os.path.join(VERIF, "harmless")))
-    with cf.ThreadPoolExecutor(max_workers=2) as ex:
+    with cf.ThreadPoolExecutor(max_workers=int(os.environ.get("HARMLESS_WORKERS", "4"))) as ex:
         for r in ex.map(run_one, ids):
             print(f"{r['id']} | tests: {r.get('tests_patched')} | all green: {r.get('all_green')} | alarms: {r.get('alarms')} | undecided/error: {r.get('undecided_or_error')}", flush=True)
 
